@@ -242,3 +242,27 @@ def known_findings():
                 kv = dict(x.split("=", 1) for x in l.split()[1:] if "=" in x)
                 out.setdefault(kv.get("property"), []).append((kv, l))
     return out
+
+
+# ---------------------------------------------------------------- TLAPS companion proofs
+def run_tlapm(module, name, timeout=900):
+    """Check a proof module with tlapm (unbounded companion of a TLC run).  Returns {"status": ok|failed|unavailable, ...};
+    the TLC run stays the verdict: `unavailable` is reported in the evidence, `failed` is a tool error of the caller."""
+    d = os.path.join(WORK, name)
+    shutil.rmtree(d, ignore_errors=True)
+    os.makedirs(d, exist_ok=True)
+    shutil.copy(os.path.join(SPEC, module), d)
+    t0 = time.time()
+    try:
+        p = subprocess.run(["timeout", str(timeout), "tlapm", "--threads", "6", "--cleanfp", module], cwd=d,
+                           stdout=subprocess.PIPE, stderr=subprocess.STDOUT, text=True,
+                           env=dict(os.environ, TMPDIR=d))
+    except FileNotFoundError:
+        return {"status": "unavailable", "wall_s": 0.0, "obligations": 0, "tail": "tlapm not on PATH"}
+    out = p.stdout
+    m = re.search(r"All (\d+) obligations? proved", out)
+    if m:
+        return {"status": "ok", "wall_s": round(time.time() - t0, 1), "obligations": int(m.group(1)), "tail": out[-300:]}
+    if re.search(r"obligations? failed|unproved obligations|\[ERROR\]", out):
+        return {"status": "failed", "wall_s": round(time.time() - t0, 1), "obligations": 0, "tail": out[-1500:]}
+    return {"status": "unavailable", "wall_s": round(time.time() - t0, 1), "obligations": 0, "tail": out[-600:]}
